@@ -109,6 +109,19 @@ func (x *Exec) call(st *State, res *ssa.Call, c *ssa.CallCommon, in ssa.Instruct
 			args = append(args, x.val(st, a))
 		}
 		key := fmt.Sprintf("(%s).%s", types.TypeString(c.Value.Type(), nil), c.Method.Name())
+		if _, ok := x.w.contracts[key]; !ok {
+			// the same method under the unaliased name of the interface, or under the interface that declares it
+			alts := []string{fmt.Sprintf("(%s).%s", types.TypeString(types.Unalias(c.Value.Type()), nil), c.Method.Name())}
+			if sg, isSig := c.Method.Type().(*types.Signature); isSig && sg.Recv() != nil {
+				alts = append(alts, fmt.Sprintf("(%s).%s", types.TypeString(sg.Recv().Type(), nil), c.Method.Name()))
+			}
+			for _, k := range alts {
+				if _, ok := x.w.contracts[k]; ok {
+					key = k
+					break
+				}
+			}
+		}
 		if fc, ok := x.w.contracts[key]; ok {
 			sig := c.Method.Type().(*types.Signature)
 			v := x.applyContract(st, key, fc, sig, recvParam(c.Value.Type()), args, in, nil)
@@ -456,6 +469,11 @@ func (x *Exec) lvalueAddr(env *Env, e CExpr) (string, types.Type) {
 				return a, t
 			}
 		}
+		if a, t, ok := x.w.ghostVar(n.Name); ok {
+			if _, isMap := t.Underlying().(*types.Map); !isMap {
+				return a, t
+			}
+		}
 	}
 	cfail("unsupported modifies entry")
 	return "", nil
@@ -731,6 +749,9 @@ func (x *Exec) lvalueType(fn *ssa.Function, sig *types.Signature, c *ssa.CallCom
 				if sig.Params().At(i).Name() == n.Name {
 					return sig.Params().At(i).Type()
 				}
+			}
+			if _, t, ok := x.w.ghostVar(n.Name); ok {
+				return t
 			}
 		case *CField:
 			t := typeOf(n.X)
